@@ -1277,6 +1277,84 @@ pub fn run_paths<C: OrdColl>(tr: &mut Trace, paths: &[(usize, Vec<POp>)], keys: 
     }
 }
 
+/// Query - update - update - use: state that a look-up may leave behind (a remembered successor, an
+/// insertion place) must not survive the updates that invalidate it.  From every covered state: a
+/// predecessor query for every probe, then every pair of updates (insertions of absent keys, removals
+/// of present ones), then - as far as the contract still allows - a neighbour step / read / write
+/// through the handle the query returned, the insertion of the probed key, and look-ups of every key.
+pub fn run_triples<C: OrdColl>(tr: &mut Trace, paths: &[(usize, Vec<POp>)], keys: i32) {
+    let mut s: OrdSession<C> = OrdSession::new(tr, keys, 0, 1);
+    for (cap, path) in paths {
+        if s.tr.full() {
+            break;
+        }
+        reload(&mut s, path, *cap);
+        let stored: Vec<i32> = s.mine.iter().cloned().collect();
+        let absent: Vec<i32> = (1..=keys).filter(|k| !stored.contains(k)).collect();
+        #[derive(Clone, Copy, PartialEq)]
+        enum U {
+            Ins(i32),
+            Del(i32),
+            None,
+        }
+        let mut ups: Vec<U> = absent.iter().map(|k| U::Ins(*k)).chain(stored.iter().map(|k| U::Del(*k))).collect();
+        ups.push(U::None);
+        for p in 0..=keys + 1 {
+            for u1 in &ups {
+                for u2 in &ups {
+                    if *u1 == U::None || (u1 == u2) {
+                        continue;
+                    }
+                    if let (U::Ins(a), U::Del(b)) = (u1, u2) {
+                        if a == b {
+                            continue; // (insert k; delete k) is covered by the plain fan-out
+                        }
+                    }
+                    if s.tr.full() {
+                        return;
+                    }
+                    reload(&mut s, path, *cap);
+                    let q = s.apply(&OOp::Fil { p }, 0);
+                    let mut deleted = false;
+                    for u in [u1, u2] {
+                        match u {
+                            U::Ins(k) => {
+                                if !s.mine.contains(k) {
+                                    s.apply(&OOp::Ins { k: *k, v: k * 1000 + 33 }, 0);
+                                }
+                            }
+                            U::Del(k) => {
+                                s.apply(&OOp::Del { k: *k }, 0);
+                                deleted = true;
+                            }
+                            U::None => {}
+                        }
+                    }
+                    if q.ok && q.res >= 0 && !deleted && C::HAS_SNAP {
+                        // the handle is still issued (no removal since): step from it, read and write through it
+                        let h = q.res as u32;
+                        if C::IS_SET {
+                            s.apply(&OOp::After { h }, 0);
+                            s.apply(&OOp::Before { h }, 0);
+                        }
+                        s.apply(&OOp::Read { h }, 0);
+                        s.apply(&OOp::Write { h, v: 777 }, 0);
+                    }
+                    if p >= 1 && p <= keys && !s.mine.contains(&p) {
+                        s.apply(&OOp::Ins { k: p, v: p * 1000 + 34 }, 0);
+                    }
+                    for k in 1..=keys {
+                        s.apply(&OOp::Get { k }, 0);
+                    }
+                    if C::IS_SET {
+                        s.walks();
+                    }
+                }
+            }
+        }
+    }
+}
+
 /// fault enumeration: every callback index of every call of the alphabet
 pub fn run_faults<C: OrdColl>(tr: &mut Trace, paths: &[(usize, Vec<POp>)], keys: i32) {
     let mut s: OrdSession<C> = OrdSession::new(tr, keys, 0, 1);
